@@ -185,7 +185,11 @@ def gen_wf(rng, kind, n=None):
 			if code == 304 and rng.random() < .4:
 				gt['rep_length'] = rng.choice([1, 5, 120])
 		fields = []
-		if kind == 'server':
+		nohost = kind == 'server' and ver == (1, 0) and method != b'CONNECT' and b'://' not in line and rng.random() < .45
+		if nohost:
+			# HTTP/1.0 allows the Host field to be absent: the configured defaults apply (never the Host of an earlier request on the connection)
+			gt['host'] = 'localhost:8090'
+		elif kind == 'server':
 			fields.append((rng.choice([b'Host', b'host', b'HOST']), hostv))
 		for _ in range(rng.randint(0, 4)):
 			fields.append((rng.choice(TOKEN_NAMES), field_value(rng)))
@@ -206,13 +210,15 @@ def gen_wf(rng, kind, n=None):
 				tn = rng.choice([b'X-Trailer', b'Etag-Like', b'x-checksum'])
 				fields.append((b'Trailer', tn))
 				trailers.append((tn, field_value(rng) or b'v'))
+				if rng.random() < .35:
+					fields.append((tn, b'from-the-header-section'))   # the same name in the header section: the trailer value is appended to it
 		elif has_body and (payload or kind == 'server' or rng.random() < .8):
 			fields.append((rng.choice([b'Content-Length', b'content-length']), b'%d' % len(payload)))
 		elif kind == 'client' and not payload:
 			if gt.get('rep_length'):
 				fields.append((b'Content-Length', b'%d' % gt['rep_length']))
 		rng.shuffle(fields)
-		if kind == 'server' and not any(f[0].lower() == b'host' for f in fields):
+		if kind == 'server' and not nohost and not any(f[0].lower() == b'host' for f in fields):
 			fields.insert(0, (b'Host', hostv))
 		ser = line + b'\r\n'
 		for nme, val in fields:
